@@ -10,6 +10,10 @@
 #include <opm/input/eclipse/EclipseState/EclipseState.hpp>
 #include <opm/input/eclipse/EclipseState/SummaryConfig/SummaryConfig.hpp>
 #include <opm/input/eclipse/EclipseState/Tables/TableManager.hpp>
+#include <opm/input/eclipse/EclipseState/Tables/PlyshlogTable.hpp>
+#include <opm/input/eclipse/EclipseState/Tables/RocktabTable.hpp>
+#include <opm/input/eclipse/EclipseState/Tables/TableColumn.hpp>
+#include <opm/input/eclipse/EclipseState/Tables/TableContainer.hpp>
 #include <opm/input/eclipse/Schedule/Schedule.hpp>
 
 namespace probe {
@@ -205,6 +209,38 @@ inline void obs_eclipse_state(const Opm::EclipseState& es, JW& out) {
     kv_sub(out, "inputNNC", es.getInputNNC());
     kv_sub(out, "faults", es.getFaults());
     kv_sub(out, "tables", es.getTableManager());
+    // tables whose type carries more than the columns: through their typed getters
+    {
+        const auto& tm = es.getTableManager();
+        auto col = [&out](const Opm::TableColumn& c) { out.arr(); for (double v : c.vectorCopy()) out.d(v); out.end_arr(); };
+        out.key("plyshlog").arr();
+        const Opm::TableContainer none;
+        const auto& pc = tm.hasTables("PLYSHLOG") ? tm.getPlyshlogTables() : none;
+        for (std::size_t i = 0; i < pc.size(); ++i) {
+            const auto& t = pc.getTable<Opm::PlyshlogTable>(i);
+            out.obj().kv_d("refPolymerConcentration", t.getRefPolymerConcentration());
+            out.kv_b("hasRefSalinity", t.hasRefSalinity()).kv_d("refSalinity", t.getRefSalinity());
+            out.kv_b("hasRefTemperature", t.hasRefTemperature()).kv_d("refTemperature", t.getRefTemperature());
+            out.key("waterVelocity"); col(t.getWaterVelocityColumn());
+            out.key("shearMultiplier"); col(t.getShearMultiplierColumn());
+            out.end_obj();
+        }
+        out.end_arr();
+        out.key("rocktab").arr();
+        const auto& rc = tm.hasTables("ROCKTAB") ? tm.getRocktabTables() : none;
+        for (std::size_t i = 0; i < rc.size(); ++i) {
+            const auto& t = rc.getTable<Opm::RocktabTable>(i);
+            out.obj();
+            out.key("pressure"); col(t.getPressureColumn());
+            out.key("poreVolumeMultiplier"); col(t.getPoreVolumeMultiplierColumn());
+            out.key("transMult"); col(t.getTransmissibilityMultiplierColumn());
+            out.key("transMultX"); col(t.getTransmissibilityMultiplierXColumn());
+            out.key("transMultY"); col(t.getTransmissibilityMultiplierYColumn());
+            out.key("transMultZ"); col(t.getTransmissibilityMultiplierZColumn());
+            out.end_obj();
+        }
+        out.end_arr();
+    }
     kv_sub(out, "aquifer", es.aquifer());
     kv_sub(out, "tracer", es.tracer());
     kv_sub(out, "micp", es.getMICPpara());
